@@ -1,5 +1,5 @@
 """C01 — the collector never reclaims a reachable object (engine gcmark)."""
-import hashlib, re
+import hashlib, re, random
 from ..runner import Spec, Case
 from .. import core
 
@@ -29,6 +29,7 @@ class Shadow:
         self.stats = {}
         self.stale = False     # exact mode: an xraise left mark bits set (new / pair / copy / chain / del / xbox / newraw are refused until the next collection)
         self.focus = False     # re-typing campaign: mostly containers, half of them leaf-typed, many assign / copy / clear
+        self.autowalk = False  # random histories: after a collection, the Mark instances of a few live containers are walked (`walk`)
     # ---- helpers
     def emit(self, l):
         self.lines.append(l); k = l.split()[0]; self.stats[k] = self.stats.get(k, 0) + 1
@@ -351,12 +352,21 @@ class Shadow:
     def dcin(self, k, op):
         self.deep_apply(op)
         self.emit(f'cin {k} | {self.inner_text(op)}'); self.checkpoint()
+    def walk(self, i):
+        """the Mark instance of container i called with a recording callback: every occupied position must be handed over (no state change)"""
+        self.emit('walk tls' if i is None else f'walk {i}')
+    def walk_some(self):
+        r = random.Random((len(self.lines) * 2654435761) & 0xffffffff)      # a stream of its own: the histories stay what they were
+        cs = [i for i in self.o if self.o[i]['kind'] in 'ALTEH']
+        for i in r.sample(cs, min(len(cs), r.choice([0, 1, 1, 2]))): self.walk(i)
+        if r.random() < 0.25: self.walk(None)
     def xcollect(self, words):
         live = self.reach(words=words)
         for i in list(self.o):
             if i not in live and not self.israw(i): del self.o[i]
         self.stale = False
         self.emit('xcollect ' + ' '.join(words) if words else 'xcollect')
+        if self.autowalk: self.walk_some()
     def xraise(self, i, words):
         """exact mode: the Mark instance of ProbeM i throws when the marker reaches it (then: no sweep, the bits stay); not reached: an xcollect"""
         live = self.reach(words=words)
@@ -371,6 +381,7 @@ class Shadow:
         self.emit(f'craise {i}')
     def collect(self):
         self.emit('collect'); self.checkpoint()
+        if self.autowalk: self.walk_some()
     def churn(self, n):
         self.emit(f'churn {n}'); self.checkpoint()
     def chain(self, n, letter, slot=None):
@@ -605,7 +616,7 @@ def rand_point(rng, sh, op):
     return rng.choice(ks)
 
 def gen_exact(rng, nops, maxobj, ncollect, focus=False, mid=False):
-    sh = Shadow(False); sh.focus = focus
+    sh = Shadow(False); sh.focus = focus; sh.autowalk = True
     every = max(3, nops // max(1, ncollect))
     for step in range(nops):
         r = rng.random()
@@ -664,7 +675,7 @@ def gen_exact(rng, nops, maxobj, ncollect, focus=False, mid=False):
     return sh
 
 def gen_full(rng, nops, nslots, focus=False, mid=False):
-    sh = Shadow(True); sh.focus = focus
+    sh = Shadow(True); sh.focus = focus; sh.autowalk = True
     def live(): return sorted(sh.reach(slots=True) & set(sh.o))
     for step in range(nops):
         r = rng.random()
@@ -1125,12 +1136,74 @@ def shape_cases(quick):
         sh.root(2, 'n'); sh.collect(); sh.churn(20); sh.collect()
         cs.append(Case('full_deep_assign', sh.lines, meta=dict(stats=sh.stats)))
     fulldeep()
+    # ---- extension round: every container's Mark instance presents EVERY occupied position (first / last slot of a Table of every size, entries that
+    #      wrapped round the end of the slot array, last element of Array / List / Tuple, leftmost / rightmost Tree node, the thread-local table)
+    TPRIMES = (5, 11, 23, 53, 101, 197) if quick else (5, 11, 23, 53, 101, 197, 389, 683)
+    def ideal(n):
+        want = int((n + 1) / 0.9)
+        return next(p for p in (0, 1, 5, 11, 23, 53, 101, 197, 389, 683, 1259) if p >= want)
+    def walk_tables(sh):
+        for P in TPRIMES:
+            # as many Int keys as make the table P slots wide (hash(Int) = its value): P-1 sits in the LAST slot, 2P-1 and 3P-1 wrap round to the first ones
+            n = next(k for k in range(1, 2000) if ideal(k) == P)
+            t = sh.new('T', arg='IR'); objs = []
+            keys = [P - 1, 2 * P - 1, 0, 3 * P - 1] + [j for j in range(1, 4 * P) if j % P not in (0, P - 1)]
+            for key in keys[:n]:
+                x = sh.new('P', arg='1'); objs.append(x); sh.tset(t, key, f'o{x}'); sh.walk(t)
+            sh.xcollect([f'o{t}'])                 # the table is the sole path: the object under the last slot's key survives
+            sh.trem(t, 0) if 0 in sh.o[t]['key'] else None
+            sh.walk(t); sh.xcollect([f'o{t}'])
+            for key in list(sh.o[t]['key'])[2:]: sh.trem(t, key)
+            sh.walk(t); sh.xcollect([f'o{t}'])
+            u = sh.new('U')                        # Ref keys: hash = the pointer
+            for x in objs[:min(len(objs), 9)]:
+                if x in sh.o: sh.tset(u, x, f'o{x}'); sh.walk(u)
+            sh.xcollect([f'o{u}']); sh.xcollect([])
+        for k in range(12):                        # the thread-local table (String keys), grown and shrunk
+            x = sh.new('R'); sh.settls(k, f'o{x}'); sh.walk(None)
+        sh.xcollect([])
+        for k in range(12): sh.remtls(k); sh.walk(None)
+        sh.xcollect([])
+    ex('mark_walk_table_slots', walk_tables)
+    def walk_seqs(sh):
+        for letter, arg in (('A', '-'), ('L', '-'), ('H', '-'), ('A', 'I'), ('L', 'S'), ('A', 'X'), ('E', 'IR'), ('F', '-'), ('E', 'SR')):
+            c = sh.new(letter, arg=arg); sh.walk(c)
+            n = 9 if quick else 40
+            objs = []
+            for j in range(n):
+                x = sh.new('P', arg='1'); objs.append(x)
+                if letter in SEQ: sh.push(c, f'o{x}')
+                elif letter == 'F': sh.tset(c, x, f'o{x}')
+                else: sh.tset(c, (j * 7) % n if j % 2 else -j, f'o{x}')     # descending and scattered keys: leftmost / rightmost node change
+                sh.walk(c)
+                if j in (0, 1, n - 1): sh.xcollect([f'o{c}'])                # the LAST element / rightmost node is the sole path to its object
+            if letter in SEQ:
+                sh.pop(c, 0); sh.walk(c); sh.pop(c, len(sh.o[c]['el']) - 1); sh.walk(c)
+                if letter != 'H': sh.ins(c, 0, f'o{objs[0]}') if objs[0] in sh.o else None
+                sh.walk(c)
+            else:
+                ks = list(sh.o[c]['key']); sh.trem(c, min(ks) if letter == 'E' else ks[0]); sh.walk(c)
+                ks = list(sh.o[c]['key']); sh.trem(c, max(ks) if letter == 'E' else ks[-1]); sh.walk(c)
+            sh.xcollect([f'o{c}'])
+            if letter != 'H': sh.clear(c); sh.walk(c)
+            sh.xcollect([])
+    ex('mark_walk_sequences_trees', walk_seqs)
+    def fullwalk():
+        sh = Shadow(True)
+        t = sh.new('T', arg='IR', slot=0); a = sh.new('A', slot=1); l = sh.new('L', slot=2); e = sh.new('E', slot=3)
+        for j, key in enumerate([22, 45, 0, 68] + list(range(1, 9))):
+            x = sh.new('P', arg='1', slot=5); sh.tset(t, key, f'o{x}'); sh.push(a, f'o{x}'); sh.push(l, f'o{x}'); sh.tset(e, -key, f'o{x}'); sh.root(5, 'n')
+            for c in (t, a, l, e): sh.walk(c)
+            if j % 4 == 3: sh.churn(30); sh.collect()
+        sh.walk(None); sh.collect()
+        cs.append(Case('full_mark_walk', sh.lines, meta=dict(stats=sh.stats)))
+    fullwalk()
     bad = ['mode exact', 'new 0 P 3 -', 'new 0 Q - -', 'new 0 P 2 -', 'new 0 R - -', 'store 0 2 n', 'store 0 0 o9', 'store 0 0 x1', 'push 0 o0', 'new 1 H - -',
            'push 1 n', 'pop 1 0', 'tset 1 0 o0', 'trem 1 0', 'tlsrem 5', 'tls 99 n', 'root 64 n', 'del 7', 'collect', 'churn 3', 'mode full', 'new 2 B 0 -', 'new 3 B 0 -',
            'store 1 0 o0', 'push 1 o0', 'del 0', 'xcollect o0 zz', 'xcollect o1', 'frobnicate', 'new 4 P 1 s70', 'chain 10 0 R -', 'chain 10 3 Q -', 'chain 10 3 R -', 'chain 11 2 R -',
            'deepchild 0 R', 'xcollect o10 o2', 'del 2', 'xcollect', 'new 20 W I -', 'new 20 W - -', 'wset 20 64 n', 'wset 20 1 m20', 'wset 1 1 n', 'wrem 20 1', 'wset 20 1 o20',
            'push 20 o20', 'store 20 0 n', 'tset 20 1 n', 'copy 21 20 -', 'assign 20 1', 'craise 1', 'xraise 20', 'new 21 M - -', 'xraise 21 o21', 'new 22 P 1 -', 'del 21',
-           'wset 20 2 o21', 'xcollect', 'wrem 20 2', 'wrem 20 1', 'xcollect']
+           'wset 20 2 o21', 'xcollect', 'wrem 20 2', 'wrem 20 1', 'xcollect', 'walk 20', 'walk 22', 'walk 99', 'walk', 'walk tls', 'walk tls x', 'new 30 A - -', 'walk 30']
     cs.append(Case('bad_ops', bad))
     if not quick:
         cs.append(Case('deep_children', ['mode exact'] + [f'deepchild {n} {k}' for n in (100, 2000, 15000) for k in 'RPAH']))
@@ -1156,7 +1229,7 @@ def mark_clears_first(repo):
 
 class C01(Spec):
     id = 'C01'; engine = 'gcmark'; harness = 'h_gcmark'; driver = 'drv_gcmark'
-    generators = ('GcMark', 'GcMid')
+    generators = ('GcMark', 'GcMid', 'GcWalk')
     harness_timeout = 600
     @property
     def harness_defines(self):
@@ -1210,7 +1283,16 @@ class C01(Spec):
                   'stored fields). The order `nitems++` behind `assign` is refuted (C01_array_push_count_after_assign_refuted, '
                   'C01_array_push_at_count_after_assign_refuted: the model run loses the first field). Refuted on the unchanged tree (proposed known finding '
                   'KF-C01-unlinked-entry-assign, C01_entry_assign_deep_safe_refuted): List_Push / List_Push_At / Table_Set_Move / Tree_Set on a new key assign the '
-                  'entry while it lies outside the structure.')
+                  'entry while it lies outside the structure. '
+                  'Extension round — the LOOPS of the Mark instances are terms, not texts: translate/g_gcmark.py (generator GcWalk) turns the header of Array_Mark / Table_Mark '
+                  '(start, comparison, `- k` on the bound, step, the hash guard, which of item / key / value the body hands over), of List_Mark (from head or tail, the loop '
+                  'condition, the link followed) and of Tuple_Mark (start, the NULL test, step) into CelloGen/GcWalk.lean; Cello/HeapWalk.lean runs them on a block of n positions / '
+                  'a slot array, and C01_array_mark_presents_all, C01_table_mark_presents_all (+ C01_table_mark_last_slot), C01_list_mark_presents_all, C01_tuple_mark_presents_all prove for EVERY '
+                  'content that each occupied position — first, last, every slot of a table of any size — is handed to the callback exactly once and nothing else is; '
+                  'C01_cont_fields_are_loop_walks identifies that with what `fields` of the abstract model presents; seven planted headers are refuted (C01_mark_loop_variants_refuted). '
+                  'GC_Set\'s two bound updates are extracted as comparison operators and proved to be the max / min step of Heap.register, in front of the threshold collection, '
+                  'with no other writer (C01_gc_set_bounds); the two loops of GC_Mark_Stack are extracted and proved to hand over every word between &stk and gc->bottom, both '
+                  'ends included, in either direction of stack growth (C01_stack_scan_covers; exclusive comparisons refuted).')
     level_note = ('Trusted: Lean kernel; axioms propext/Quot.sound/Classical.choice at most; translate/g_gcmark.py (regex over GC.c and the Mark instances); the '
                   'harness/driver comparison (testing); the registry lookup inside GC_Mark_Item is abstracted as a finite map (its correctness is C17). '
                   'Not covered: recursion depth of the C marker (known finding F27: chains of about 10^5 links overflow the C stack), dangling pointers in '
@@ -1243,6 +1325,13 @@ class C01(Spec):
             'the model, which runs the statement lists on Mid.DMach and collects on the heap holding exactly the fresh objects that exist at that point), `cin k` full (the '
             'real threshold collection; Arrays only, since in full mode any allocation of the operation may collect); the matrix container kind x operation x position x '
             'allocation point, growth of the Array block under the element being assigned, the last element of concat / assign; '
+            '`walk <id>` / `walk tls`: the Mark instance of a container (or of the thread-local table) is called with a recording callback and the direct oracle, which '
+            'enumerates the occupied positions on its own (get(c, i), the hash words of the slot array, descent from the Tree root, items up to Terminal), demands that each '
+            'is handed over exactly once and nothing else (X gc-mark-skips-position / gc-mark-extra-position); the model side runs the extracted loop terms; after every '
+            'collection of a random history up to two live containers are walked; targeted: tables of 5 … 197 (thorough: 683) slots filled so that the LAST slot, the first '
+            'slot and entries wrapped round the end are occupied (I line: table-last-slot / table-first-slot / table-wrapped), the object under the last slot\'s key being '
+            'reachable through the table only, Ref- and String-keyed tables, the thread-local table grown and shrunk, Arrays / Lists / Tuples / Trees walked after every '
+            'push / pop / insertion with the last element (rightmost / leftmost node) the sole path to its object; '
             'chains up to the cap, the matrix leaf-typed target x '
             'reference-bearing source for sequences and maps (direct and via copy+clear), growth after re-typing. '
             'non-trivial item = a collection (between operations or inside one) that marked at least 2 objects and swept at least 1 (exact mode) or a forced collection with at least 2 live '
@@ -1261,6 +1350,12 @@ class C01(Spec):
                     'first k fields are the new ones); an Assign instance that keeps a copy in a local until the end is covered a fortiori by the exact mode (which roots only the '
                     'container and the operand) but not distinguished; KEY types with an allocating Assign (Table_Set_Move assigns the key, then the value, both in the swap '
                     'space) and destructors of the overwritten element are not exercised; copy(container) = alloc + assign is exercised through dassign into an empty container only',
+                    'GcWalk: a Mark function whose loop is outside the recognised family (a pointer walk, a second loop, a cached bound) extracts as `none` and fails its '
+                    'theorem (a broken tie; the `walk` oracle then supplies the failing input); Tree_Mark stays a compared text: it walks with Tree_Iter_Init / Tree_Iter_Next, whose '
+                    'completeness is C02 / C03 (the `walk` oracle checks it against a descent from the root); Thread_Mark is the one-line delegation to the table; the body helpers '
+                    'Array_Item / Table_Key / Table_Val / Table_Key_Hash / List_Next (address arithmetic) are exercised by the `walk` oracle, not modelled; the `walk` count of a Table is '
+                    'computed on a dense layout (a complete loop makes the same number of calls on every layout; positions are the oracle\'s side); GC_Mark_Stack is modelled in '
+                    'words between two given ends — that gc->bottom (Cello_Main\'s local) and &stk bracket every live frame is the register-spill item below',
                     'harness/h_gcmark.c + lean/Driver/GcMark.lean + lean/Cello/HeapOps.lean (correspondence is testing)',
                     'the registry probe inside GC_Mark_Item / GC_Sweep is modelled as a finite map (C17 covers the registry)',
                     'exact mode replicates the 8-line root loop of GC_Mark in the harness (the real loop runs in full mode); whether the replica clears the mark bits '
@@ -1380,6 +1475,8 @@ class C01(Spec):
                 acc['max_objects_in_case'] = max(acc.get('max_objects_in_case', 0), int(m.group(1)))
             m = re.search(r'unreachable-freed=(\d+)', l)
             if m: acc['full_mode_freed'] = acc.get('full_mode_freed', 0) + int(m.group(1))
+            if l.startswith('I walk '):
+                for k, v in re.findall(r'([\w-]+)=(\d+)', l): acc['walk_' + k.replace('-', '_')] = acc.get('walk_' + k.replace('-', '_'), 0) + int(v)
     def model_selfcheck(self, case, m_out):
         """inside the model: the worklist marker (what the theorems are about) against the marker with the call structure of GC.c"""
         ls = m_out.split('\n')
